@@ -82,6 +82,21 @@ def build(case, Z):
     return ResNetwork(Z, silence_level=3)
 
 
+def with_candidates(case, Z):
+    """The matrix a caller holds when `adjacency=` selects the built lines
+    among candidate lines: non-zero resistances also on node pairs that are
+    not links (ignored by the circuit - the adjacency says what is linked)."""
+    if not (case.get("explicit_adjacency") and case.get("offlink")):
+        return Z
+    A = adjacency_of(case)
+    Z2 = Z.copy()
+    links = Z[A != 0]
+    v = links.flat[0] if links.size else 1.0
+    off = (A == 0) & ~np.eye(case["n"], dtype=bool)
+    Z2[off] = v * 0.75
+    return Z2
+
+
 def has_cycle(case):
     return len(case["edges"]) > case["n"] - 1
 
@@ -250,14 +265,17 @@ def classify(rec, case, Z):
 def oracle_network(case, rec):
     Z = z_matrix(case)
     classify(rec, case, Z)
-    ok, net = rec.call("construct", build, case, Z)
+    if case.get("explicit_adjacency") and case.get("offlink"):
+        rec.label("resistances_on_non_links")
+    ok, net = rec.call("construct", build, case, with_candidates(case, Z))
     if not ok:
         return
     ER = check_real_network(rec, net, case, Z)
     # linear scaling: all resistances times c -> all effective resistances
     # times c (fresh object)
     c = case["scale"]
-    ok, net2 = rec.call("construct_scaled", build, case, Z * c)
+    ok, net2 = rec.call("construct_scaled", build, case,
+                        with_candidates(case, Z * c))
     if ok:
         ok, lib2 = rec.call("effective_resistance_scaled", er_all, net2,
                             case["n"])
@@ -348,7 +366,8 @@ def oracle_complex(case, rec):
         tag = "" if upd is None else "@after_update"
         if upd is not None:
             Z = z_matrix(case, upd["r"], upd["x"])
-            ok, _ = rec.call("update_resistances", net.update_resistances, Z)
+            ok, _ = rec.call("update_resistances", net.update_resistances,
+                             with_candidates(case, Z))
             if not ok:
                 return
         A = adjacency_of(case)
@@ -583,6 +602,7 @@ def base_cases(draw, max_n=10):
             "den": 0 if kind == "float" else 4,
             "r": draw(resist(len(edges), kind)), "x": None,
             "explicit_adjacency": draw(st.booleans()),
+            "offlink": draw(st.booleans()),
             "node": draw(st.integers(0, n - 1)),
             "scale": draw(st.sampled_from([0.5, 2.0, 3.0, 0.125, 10.0, 1e-6, 1e-3,
                                             1e3, 1e6, 1e8, 1e9]))}
